@@ -36,7 +36,7 @@ pub open spec fn lower_first(s: Seq<char>) -> Seq<char> {
 
 pub enum Rule { Lower, Upper, Pascal, Camel, Snake, ScreamingSnake, Kebab, ScreamingKebab }
 
-pub open spec fn dash() -> Seq<char> { seq!['-'] }
+pub open spec fn dash() -> Seq<char> { "-"@ }
 
 pub open spec fn serde_variant(r: Rule, s: Seq<char>) -> Seq<char> {
     match r {
